@@ -23,6 +23,7 @@ from fractions import Fraction
 import numpy as np
 
 from .. import common
+from ..translator import py2lean
 from ..common import enc, ask, HarnessError
 
 LEVEL = "proof"
@@ -584,7 +585,18 @@ ANCHOR_DIGEST = "5607e8053791a606"       # structural digest of `wasserstein` th
                                          # coordinate differences, dcbfa71: inputs converted with dtype=float)
 
 
+# source translator (DESIGN.md 3.2): part of the model is regenerated from the source text on every run
+TRUSTED = list(TRUSTED) + [py2lean.trusted_note("wasserstein")]
+PROP_FILES = ["PersimVerif/Props/C02.lean"] + py2lean.prop_files("wasserstein")
+
+
+def pre_build(ctx):
+    """source translator: regenerate Generated/Src*.lean from PERSIM_ROOT's source"""
+    py2lean.pre_build(ctx, ("wasserstein",))
+
+
 def run(ctx):
+    py2lean.report_broken(ctx, PROP_FILES)
     ctx.extra["core_theorems"] = CORE_THEOREMS
     cases = [dict(c) for c in CORPUS]
     digest = common.source_digest(ANCHOR, ["wasserstein"])
@@ -827,3 +839,4 @@ MANIFEST = {
     "technique": "Lean 4 theorems over a hand-written model with the solver as a contract parameter + differential correspondence "
                  "with Lean-verified dual certificates",
 }
+MANIFEST["note"] += " " + py2lean.manifest_note("wasserstein")
